@@ -526,6 +526,14 @@ struct MemWorld : World
       f(*cell);
     }
   }
+  template<class NV>
+  static int64_t nv_value(const NV& nv)
+  {
+    if constexpr (std::is_integral_v<NV>)
+      return (int64_t)nv;
+    else
+      return (int64_t)nv.UNSAFE_unverified();
+  }
   template<class F>
   void with_n(int s, int nt, int wrap, int64_t v, F&& f)
   {
@@ -870,7 +878,16 @@ struct MemWorld : World
       return;
     uint64_t before = st.impl()->n_frees;
     TP<int> t = nullptr;
-    Outcome o = attempt([&] { st.sb->free_in_sandbox(t); });
+    static PT lone_cell[2]; // stands for a (null) pointer held in memory the application still has a reference into
+    Outcome o = attempt([&] {
+      if (op.a[1] & 1) {
+        lone_cell[0] = 0;
+        st.sb->free_in_sandbox(*reinterpret_cast<rlbox::tainted_volatile<int*, Sbx>*>(&lone_cell[0])); // the overload for values that live in sandbox memory
+      } else if (op.a[1] & 2)
+        st.sb->free_in_sandbox(t.to_opaque());
+      else
+        st.sb->free_in_sandbox(t);
+    });
     C->probe("free_outside_window");
     if (o != OK || st.impl()->n_frees != before)
       C->violate("C14", "free_outside_window_not_ignored@free_dead", "sandbox #%d state %d outcome %s", s, st.state, oname(o));
@@ -1111,7 +1128,14 @@ struct MemWorld : World
     };
     if (op.kind == C_ACCEPT) {
       TP<T> t = nullptr;
-      Outcome o = attempt([&] { t = st.sb->UNSAFE_accept_pointer(raw); });
+      Outcome o = attempt([&] {
+        if (op.a[5] & 1) {
+          // pointer to a const-qualified pointee
+          rlbox::tainted<const T*, Sbx> ct = st.sb->UNSAFE_accept_pointer(const_cast<const T*>(raw));
+          t = rlbox::sandbox_const_cast<T*>(ct);
+        } else
+          t = st.sb->UNSAFE_accept_pointer(raw);
+      });
       C->ev("accept<%zu> cls %d -> %s", sizeof(T), cls, oname(o));
       if ((o == OK) != inside) {
         refusal(o);
@@ -1231,10 +1255,58 @@ struct MemWorld : World
         C->violate("C02", std::string("destination_changed_by_refused_assignment@") + opn, "second base");
     }
   }
+  // Raw FUNCTION pointers: an application function's address is not inside the sandbox's memory either
+  void do_c02_fnptr(const Op& op)
+  {
+    constexpr int NCLS = 14;
+    int s = pick_sbx(op.a[0]);
+    SbxState& st = S[(size_t)s];
+    bool defined;
+    int cls = (int)((uint64_t)op.a[1] % NCLS);
+    uintptr_t addr = (op.a[3] & 1) ? (uintptr_t)&cb_a : addr_class(s, cls, (int)op.a[2], op.a[3], defined);
+    if (!(op.a[3] & 1) && !defined)
+      return;
+    bool inside = st.state == 1 && addr >= st.base() && addr - st.base() < st.size();
+    using Fn = void (*)();
+    Fn raw = reinterpret_cast<Fn>(addr);
+    const char* opn = kKind[op.kind];
+    C->probe("raw_function_pointer_given");
+    Outcome o;
+    if (op.kind == C_ASSIGN_V) {
+      if (st.state != 1)
+        return;
+      auto cell = rlbox::sandbox_reinterpret_cast<Fn*>(st.pcell);
+      uint32_t celloff = (uint32_t)((uintptr_t)st.pcell.UNSAFE_unverified() - st.base());
+      PT prev;
+      memcpy(&prev, st.impl()->gptr(celloff), sizeof prev);
+      o = attempt([&] { (*cell).assign_raw_pointer(*st.sb, raw); });
+      PT now;
+      memcpy(&now, st.impl()->gptr(celloff), sizeof now);
+      if (o != OK && now != prev)
+        C->violate("C02", std::string("destination_changed_by_refused_assignment@") + opn, "function pointer cell %llu -> %llu", (unsigned long long)prev, (unsigned long long)now);
+    } else {
+      rlbox::tainted<Fn, Sbx> t = nullptr;
+      o = attempt([&] {
+        if (op.kind == C_ACCEPT)
+          t = st.sb->UNSAFE_accept_pointer(raw);
+        else
+          t.assign_raw_pointer(*st.sb, raw);
+      });
+      if (o != OK && t != nullptr)
+        C->violate("C02", std::string("destination_changed_by_refused_assignment@") + opn, "function pointer");
+    }
+    C->ev("%s <function pointer> %s -> %s", opn, (op.a[3] & 1) ? "application function" : "address class", oname(o));
+    if ((o == OK) != inside)
+      C->violate("C02", std::string(inside ? "in_sandbox_address_refused@" : "foreign_address_accepted@") + opn, "raw function pointer %s, outcome %s", (op.a[3] & 1) ? "to an application function" : "of an address class", oname(o));
+  }
   void do_c02(const Op& op)
   {
     if ((op.a[5] & 12) == 12) {
       do_c02_derived(op);
+      return;
+    }
+    if ((op.a[5] & 12) == 8) {
+      do_c02_fnptr(op);
       return;
     }
     switch ((int)((uint64_t)op.a[4] % 3)) {
@@ -1289,6 +1361,14 @@ struct MemWorld : World
               push<T>(s, t, opn);
             } else if constexpr (!std::is_class_v<T>) {
               auto r = &t[nv];
+              if constexpr (std::is_pointer_v<T>) {
+                // an array of pointers in sandbox memory is laid out in the guest's pointer size: element n is n
+                // representations further, which is also where "p + n" points and where the guest keeps it
+                uintptr_t ra = (uintptr_t)r.UNSAFE_unverified();
+                uintptr_t want = haddr(hc) + (uintptr_t)((int64_t)nv_value(nv) * (int64_t)sizeof(PT));
+                if (ra != want)
+                  C->violate("C04", "wrong_element_of_pointer_array_addressed@index_addr", "element %lld of an array of pointers: %lld bytes from the start instead of %lld", (long long)nv_value(nv), (long long)(ra - haddr(hc)), (long long)(want - haddr(hc)));
+              }
               push<T>(s, rlbox::sandbox_const_cast<T*>(r), opn);
             }
           });
@@ -1381,13 +1461,21 @@ struct MemWorld : World
           break;
         }
         case 7:
-          // element of a fixed array field, index of any integer type and wrapper form (bounds-checked: abort or in range)
-          with_n(s, (int)((uint64_t)op.a[4] % 5), (int)((uint64_t)op.a[5] % 3), op.a[3], [&](auto& nv) { push<char>(s, &t->name[nv], "field_addr"); });
+        case 8: {
+          // element of a fixed array field, index of any integer type and wrapper form (bounds-checked: abort or in range);
+          // the struct is the handle's, or one that occupies the very last bytes of the region
+          auto tn = t;
+          if (op.a[2] & 16) {
+            tn = S[(size_t)s].sb->UNSAFE_accept_pointer(reinterpret_cast<SimNode*>(S[(size_t)s].base() + S[(size_t)s].size() - sizeof(GNode)));
+            C->probe("array_field_of_struct_on_the_last_bytes_indexed");
+          }
+          if (f == 7)
+            with_n(s, (int)((uint64_t)op.a[4] % 5), (int)((uint64_t)op.a[5] % 3), op.a[3], [&](auto& nv) { push<char>(s, &tn->name[nv], "field_addr"); });
+          else
+            with_n(s, (int)((uint64_t)op.a[4] % 5), (int)((uint64_t)op.a[5] % 3), op.a[3], [&](auto& nv) { push<int*>(s, &tn->ptrs[nv], "field_addr"); });
           C->probe("fixed_array_field_indexed_with_arbitrary_integer");
           break;
-        case 8:
-          with_n(s, (int)((uint64_t)op.a[4] % 5), (int)((uint64_t)op.a[5] % 3), op.a[3], [&](auto& nv) { push<int*>(s, &t->ptrs[nv], "field_addr"); });
-          break;
+        }
         case 0:
           push<char>(s, rlbox::sandbox_reinterpret_cast<char*>(&t->tag), "field_addr");
           break;
@@ -1877,7 +1965,7 @@ struct MemWorld : World
   {
     Handle* h = pick(op.a[0], T_PINT);
     Handle* hn = pick(op.a[0], T_NODE);
-    int which = (int)((uint64_t)op.a[1] % 5);
+    int which = (int)((uint64_t)op.a[1] % 8);
     bool use_node = which == 4;
     if (use_node ? (!hn || !fits(*hn, sizeof(GNode))) : (!h || !fits(*h, sizeof(PT))))
       return;
@@ -1894,6 +1982,8 @@ struct MemWorld : World
     vf.value = mut == 0 ? (PT)0 : mut == 1 ? (PT)(((uint64_t)op.a[5] & (st.size() - 1)) | 8) : (PT)((uint64_t)op.a[5] * 2654435761u);
     vf.fired = false;
     int64_t n = op.a[2];
+    bool in_place = false;
+    int64_t want_delta = 0;
     bool armed = Sbx::cfg.mmu && vf.k != 0;
     if (armed)
       mmu::arm(st.impl()->mem.base, st.size(), vol_hook, &vf);
@@ -1914,6 +2004,25 @@ struct MemWorld : World
         } else if (which == 2) {
           auto r = &vp[(unsigned)n];
           push<int>(s, rlbox::sandbox_const_cast<int*>(r), "volatile_ptr_op");
+        } else if (which >= 5) {
+          // the pointer is updated where it lives: compound assignment and increment / decrement
+          in_place = true;
+          if (which == 5) {
+            vp += (int)n;
+            want_delta = (int64_t)(int)n * 4;
+          } else if (which == 6) {
+            vp -= (long)n;
+            want_delta = -(int64_t)(long)n * 4;
+          } else {
+            // (the postfix forms do not compile for a value that lives in sandbox memory)
+            if ((uint64_t)n % 2 == 0) {
+              ++vp;
+              want_delta = 4;
+            } else {
+              --vp;
+              want_delta = -4;
+            }
+          }
         } else if (n & 1) {
           auto r = &(*vp);
           push<int>(s, rlbox::sandbox_const_cast<int*>(r), "volatile_ptr_op");
@@ -1933,6 +2042,22 @@ struct MemWorld : World
     C->ev("volatile_ptr_op %d n=%lld strike@%llu mut=%d fired=%d -> %s", which, (long long)n, (unsigned long long)vf.k, mut, (int)vf.fired, oname(o));
     if (vf.fired)
       C->fired("F2_pointer_cell_rewritten_between_accesses");
+    if (in_place || (which >= 5 && o != OK)) {
+      C->probe("pointer_updated_in_place_in_sandbox_memory");
+      PT now;
+      memcpy(&now, st.impl()->gptr(celloff), sizeof now);
+      if (!vf.fired && !C->stop) {
+        // nothing interfered: the cell holds exactly old + delta when that lies inside the region, and is untouched after an abort
+        __int128 want = (__int128)(uint64_t)valid + want_delta;
+        bool fits_region = want >= 0 && want < (__int128)st.size();
+        if (o == OK && (!fits_region || now != (PT)want))
+          C->violate("C03", "escaped_pointer@volatile_ptr_op", "pointer in a cell updated in place: representation %llu -> %llu (step %lld bytes, region %zu bytes)", (unsigned long long)valid, (unsigned long long)now, (long long)want_delta, st.size());
+        else if (o != OK && now != valid)
+          C->violate("C03", "cell_changed_by_refused_update@volatile_ptr_op", "representation %llu -> %llu although the update aborted", (unsigned long long)valid, (unsigned long long)now);
+      } else if (vf.fired && o == OK && (uint64_t)now >= st.size() && !C->stop) {
+        C->violate("C03", "escaped_pointer@volatile_ptr_op", "pointer in a cell updated in place while the guest rewrote it: the stored representation %llu lies beyond the region", (unsigned long long)now);
+      }
+    }
   }
 
   // whole array of pointers: sandbox -> application -> (other node's) sandbox memory
